@@ -215,9 +215,10 @@ func runTSIDSearch(mQuery *structs.MetricsQuery,
 	}
 
 	metricName := mQuery.MetricName
-	if mQuery.IsRegexOnMetricName() && !mQuery.GroupByMetricName {
+	if mQuery.IsRegexOnMetricName() && !mQuery.GroupByMetricName && (mQuery.Groupby || mQuery.AggWithoutGroupBy) {
 		// If the metric name is a regex, we do not want to add the metric name to the tracker
 		// As this may affect the group by
+		// Without an aggregation the series of different metrics must stay apart: keep the metric name
 		metricName = STAR
 	}
 
